@@ -46,6 +46,10 @@ def streams(rng, tier):
         i = rng.choice(pos)
         s = s[:i] + rng.choice(["\u0661", "\uff11", "\u00b2", "\u0967", "\u2460", "\U0001d7d9"]) + s[i + 1:]
         out.append(Case("digit-confusable", "v.parse", [s])); out.append(Case("digit-confusable", "v.canon", [rng.choice("TF"), s]))
+    if not q:       # magnitudes just below CPython's 4300-digit int() limit (thorough tier only: the model takes seconds for each)
+        for x in gen.HUGE4K:
+            for tpl in ["%d", "0001.%d.0", "%d!1", "1+%d", "1.post%d", "1a%d"]:
+                out.append(Case("parse-4k", "v.parse", [tpl % x])); out.append(Case("parse-4k", "v.canon", ["T", tpl % x]))
     for c in gen.WS_ALL:
         for s in [c + "1.0", "1.0" + c, c + "v1.0rc1" + c, "1" + c + "0", "1.0" + c + "a1", c]:
             out.append(Case("ws-all", "v.parse", [s])); out.append(Case("ws-all", "v.canon", ["T", s]))
